@@ -1520,7 +1520,8 @@ def c16_programs(tier, sd):
         out.append({"tag": "fault_randsz", "desc": "failing calls on a random-size list %s %s" % (sc, body), "prog": {"enums": {}, "classes": [PL]},
                     "world": [["q", "obj", "PL"]],
                     "ops": [["randomize", ["q"]], ["list_append", ["q", "l"], 5], ["randomize", ["q"]], ["randomize_with", ["q"], [E(["==", F("k"), lit(1)]), E(["==", F("k"), lit(2)])]],
-                            ["list_append", ["q", "l"], 6], ["randomize", ["q"]], ["list_clear", ["q", "l"]], ["list_append", ["q", "l"], 7], ["randomize", ["q"]]]})
+                            ["list_append", ["q", "l"], 6], ["randomize", ["q"]], ["list_clear", ["q", "l"]], ["list_append", ["q", "l"], 7], ["randomize", ["q"]],
+                            ["randomize_with", ["q"], [E(["==", ["size", ["l"]], lit(7)])]], ["list_append", ["q", "l"], 8], ["randomize", ["q"]]]})
     # soft statements inside a dynamic block, referenced together with a conflicting inline soft, across repeated and failing calls:
     # the per-call soft bookkeeping (priorities) must start afresh every time
     SD = {"name": "SD", "fields": [fld("a", ("u", 4)), fld("b", ("u", 4))],
